@@ -9,6 +9,46 @@ use std::alloc::{GlobalAlloc, Layout, System};
 
 pub struct PoisonAlloc;
 
+/// Memory as a logical clock. A simulated process (a thread with an entropy seed) that holds more than this many
+/// bytes of live allocations is a runaway: the largest legitimate workload of the corpora needs a few hundred MB.
+/// On a real machine such a process is killed by the OOM killer or aborts on a failed allocation; sixteen of them
+/// take the sandbox down first. The process that hosts it exits with status 97, which the supervisor reports as
+/// the death of that simulated process (bisected to the case and replayed alone, like a stack overflow).
+pub const LIVE_BUDGET: isize = 3 << 30;
+pub const EXIT_MEMORY_BUDGET: i32 = 97;
+
+thread_local! {
+    static LIVE: std::cell::Cell<isize> = const { std::cell::Cell::new(0) };
+}
+
+/// called when a simulated process starts on this thread
+pub fn reset_live() {
+    let _ = LIVE.try_with(|l| l.set(0));
+}
+
+extern "C" {
+    fn _exit(code: i32) -> !;
+    fn write(fd: i32, buf: *const u8, n: usize) -> isize;
+}
+
+#[inline]
+fn account(delta: isize) {
+    let over = LIVE
+        .try_with(|l| {
+            let v = l.get() + delta;
+            l.set(v);
+            v > LIVE_BUDGET
+        })
+        .unwrap_or(false);
+    if over {
+        let msg = b"VERIF-MEMORY-BUDGET: a simulated process holds more than 3 GiB of live allocations\n";
+        unsafe {
+            write(2, msg.as_ptr(), msg.len());
+            _exit(EXIT_MEMORY_BUDGET);
+        }
+    }
+}
+
 /// allocations larger than this are poisoned only up to here (cost)
 const POISON_LIMIT: usize = 1 << 20;
 
@@ -25,17 +65,25 @@ unsafe impl GlobalAlloc for PoisonAlloc {
                     i += 1;
                 }
                 crate::entropy::note_poisoned(n);
+                account(layout.size() as isize);
             }
         }
         p
     }
 
     unsafe fn dealloc(&self, ptr: *mut u8, layout: Layout) {
+        if crate::entropy::poison_pattern().is_some() {
+            account(-(layout.size() as isize));
+        }
         System.dealloc(ptr, layout)
     }
 
     unsafe fn alloc_zeroed(&self, layout: Layout) -> *mut u8 {
-        System.alloc_zeroed(layout)
+        let p = System.alloc_zeroed(layout);
+        if !p.is_null() && crate::entropy::poison_pattern().is_some() {
+            account(layout.size() as isize);
+        }
+        p
     }
 
     // realloc: the default implementation (alloc + copy + dealloc) leaves the new tail poisoned
